@@ -2,3 +2,4 @@ import NiVerif.DriverCore
 import NiVerif.Props.C02
 import NiVerif.Props.C03
 import NiVerif.Props.C04
+import NiVerif.Props.C14
